@@ -6,7 +6,7 @@
 cd "$(dirname "$0")/.." || exit 2
 if [ -n "$(git -C /repo status --porcelain)" ]; then echo "/repo is dirty"; exit 2; fi
 SEEDS=${@:-$(ls seeded)}
-declare -A BY=( [C01-1]="C03 C01" [C01-2]="C03" [C03-2]="C03 C09" )
+declare -A BY=( [C01-1]="C03 C01" [C01-2]="C03" [C01-3]="C02" [C02-2]="C05 C02" [C03-2]="C03 C09" [C10-3]="C10 C14" )
 rc=0
 for s in $SEEDS; do
   prop=${s%%-*}
